@@ -332,7 +332,8 @@ pub fn generate(thorough: bool, seed: u64, out: &mut dyn Write) {
 
     // --- sheets stored in a synthetic installation, read through GameData ----------------------
     let mut arng = Rng::new(seed, "C05-archive");
-    for i in 0..(if thorough { 4_000 } else { 110 }) {
+    sweep_sheets(&mut arng, out);
+    for i in 0..(if thorough { 4_000 } else { 160 }) {
         gen_sheets(&mut arng, i, out);
     }
 }
@@ -396,6 +397,43 @@ fn store_spec(rng: &mut Rng) -> String {
         })
         .collect();
     format!("{}.{}.{}.{}.{}", chunk, kinds, dat, gap, pat.join("_"))
+}
+
+/// bounded-exhaustive: index kinds (index / index2 / both) x block mode (raw / stored / fixed
+/// Huffman) x all 8 languages, platform and chunk cycling; one two-page sheet in a sub-directory
+/// with upper-case letters; root list, header and page 1 stored; names, header, rows, a page that
+/// is not stored, the page name in another spelling
+fn sweep_sheets(rng: &mut Rng, out: &mut dyn Write) {
+    let name = "Quest/000/ClsHrv000_00023";
+    let hn = hex(name.as_bytes());
+    let mut n = 0u64;
+    for kinds in 1..=3u32 {
+        for mode in ['r', 's', 'f'] {
+            for lang in 0..8u8 {
+                n += 1;
+                let chunk = n % 3;
+                let st = |size: u32, dat: u64| format!("{}.{}.{}.0.{}{}", chunk, kinds, dat, size, mode);
+                let other_lang = (lang + 1) % 8;
+                let a = rng.below(1 << 16);
+                let b = rng.below(1 << 16);
+                writeln!(
+                    out,
+                    "sheets {} 6666786976 n,h{},s{}.{}.{}.1.500.501.7,s{}.{}.{}.1.500,s{}.{}.{}.0.3,h{} R {} 2 41:1,{}:7 S {} {} 0 3 8 0:0,5:4,25:6,32:6 0:500,500:500 {},{} 1000 P 1 {} {} 500=s:{},u16:{},b:1,b:0;501=s:-,u16:{},b:0,b:1",
+                    n % 5,
+                    hn,
+                    hn, hn, lang,
+                    hn, hex(name.to_ascii_uppercase().as_bytes()), lang,
+                    hn, hn, other_lang,
+                    hex(name.to_ascii_lowercase().as_bytes()),
+                    st(9, 0), hn,
+                    hn, st(20, n % 2), lang, other_lang,
+                    lang, st(33, n % 8),
+                    hex(format!("row {}", n).as_bytes()), a, b
+                )
+                .unwrap();
+            }
+        }
+    }
 }
 
 fn gen_sheets(rng: &mut Rng, i: usize, out: &mut dyn Write) {
